@@ -28,6 +28,29 @@ def res_of(d):
     return out
 
 
+def long_tokens(chk):
+    """Names and values of many thousand characters (a textarea, a pasted document): the same RoundTrip clause, judged in
+    the harness as plain equality with what was submitted -- tokens of this size are too long for TLC's sequences."""
+    from urllib.parse import quote, quote_plus
+    cases = [[('a', 'x' * 9000)], [('a', 'x' * 8193), ('b', '2')], [('k' * 8200, 'v')], [('t', '\u0416' * 1400), ('u', 'end')],
+             [('a', 'x' * 8192)], [('a', '1'), ('a', 'y' * 20000), ('a', '3')], [('e', ('%' + '\u20ac') * 3000)]]
+    for pairs in cases:
+        for enc in (quote, quote_plus):
+            raw = '&'.join('%s=%s' % (enc(k, safe=''), enc(v, safe='')) for k, v in pairs)
+            want = {}
+            for k, v in pairs:
+                want.setdefault(k, []).append(v)
+            for ch in ('query', 'forms'):
+                res, exc = parse_via(ch, raw)
+                got = {''.join(map(chr, k)): [''.join(map(chr, x)) for x in vs] for k, _islist, vs in res}
+                chk.count(1, ('long', ch, len(raw), len(pairs)))
+                if exc or got != want:
+                    chk.violation("C18: ['RoundTrip'] fails: %d pair(s) with a token of %d characters, sent as %d characters through %s: %s, got %d key(s) with value lengths %s"
+                                  % (len(pairs), max(len(k) + len(v) for k, v in pairs), len(raw), ch, exc or 'no exception', len(got),
+                                     [[len(k), [len(x) for x in vs]] for k, vs in got.items()][:6]),
+                                  {'raw': raw[:200], 'pairs': [[k[:20], len(v)] for k, v in pairs], 'channel': ch, 'clauses': ['RoundTrip'], 'long': True})
+
+
 def parse_via(channel, raw):
     """channel: 'qsl' | 'query' | 'forms' | 'params' | 'forms-after-body'"""
     from ombott import Ombott
@@ -111,6 +134,7 @@ def run(chk):
         chk.add_tlc(r, 'exhaustive larger scope' + ('' if r.complete else ' (stopped by the time budget)'))
         if not r.ok:
             raise core.MachineryError('model-level: %s\n%s' % (r.violated, r.out[-1500:]))
+    long_tokens(chk)
     traces = []
     # (a) every raw string of length <= 4 (quick) / 5 over the separator alphabet, through parse_qsl and Request.query
     alpha = 'a=&+%41;'
